@@ -31,7 +31,18 @@
       * awaited Data x validators that judge x TLV-level edits (judged_scenario): every single element edit of honest
         Data (and of its MetaInfo / SignatureInfo), re-framed, while Interests wait for it whose validators give every
         verdict (a real DigestSha256 check, each constant, delayed, timing out): each addressed Interest ends at once
-        with the Data or with ValidationFailure as its verdict says; no background task ends with an unhandled error.
+        with the Data or with ValidationFailure as its verdict says; no background task ends with an unhandled error;
+      * names with odd components (oddname_family): honest Interests -- plain, with ApplicationParameters, DigestSha256-signed --
+        whose names carry legal but semantically odd components (digest components of every wrong length, several of them,
+        typed components of no integer width, empty / unprintable values, unassigned, three-byte and out-of-range types,
+        non-shortest forms) and whose ParametersSha256DigestComponent is right, absent, wrong, cut, extended or doubled,
+        delivered to handlers attached above them; Data / Nacks with such names delivered to Interests the application waits
+        for; both with the library loggers silent and at DEBUG: reception returns normally, the Interest is handled by the
+        longest attached prefix once or dropped as its digest and validator say, nothing else is touched;
+      * the packet's name against the names in the tables (relation_family): Nack / Data / Interest named N (depth 0 = the empty
+        name .. 3) against every subset of {parent, N, N+1, N+2, sibling, elsewhere} pending and of {root, parent, N, N+1,
+        sibling, elsewhere} attached -- in particular tables where N is only an inner node (entries strictly below, nothing at
+        it): exactly the entries the packet addresses by name are completed / invoked, reception returns normally.
 """
 import asyncio
 import copy
@@ -57,7 +68,7 @@ RULE = ('(A) packet lists (types/lengths over all four var-number forms incl. no
         '(express, earlier Data / Nack / cancellation / expiry, Data under validation) into the state given by a word '
         'over {waiting, waiting with a foreign implicit digest, caller gives up in the loop turn of the packet, lifetime '
         'timer fires in the loop turn of the packet, given up / timed out / satisfied / nacked earlier, validator still '
-        'running, CanBePrefix parent waiting / given up in this turn, unrelated name}; several entries share the '
+        'running, CanBePrefix parent waiting / given up in this turn, unrelated name, a name strictly below the packet\'s}; several entries share the '
         'packet\'s name, in every order: all words of length <= 2 (thorough: 3) + sampled words of length 3-6, against '
         'Data (bare, in an LpPacket), Nack (with / without reason), Interest and dropped packets (cut, trailing byte, '
         'fragment-labelled), handed over awaited / as a task created in the turn of the cancellation / as a task created in '
@@ -92,6 +103,47 @@ RULE = ('(A) packet lists (types/lengths over all four var-number forms incl. no
         'verdict is PASS / ALLOW_BYPASS (v1: truthy) and with ValidationFailure carrying that name, Content and verdict '
         'otherwise; nobody else is touched and still gets its own Data afterwards with the outcome its validator dictates; no '
         'background task ends with an unhandled error (loop exception handler, incl. never-retrieved task exceptions after gc).  '
+        'Names with odd components (built by the harness\'s own encoder, no library code): component forms = ImplicitSha256 / '
+        'ParametersSha256 digest components with values of 0, 1, 2, 31, 32, 33, 64 octets; segment / byte-offset / version / '
+        'timestamp / sequence-number components with values of 0, 1, 2, 3, 4, 5, 7, 8, 9, 16 octets; keyword and generic components '
+        'that are empty or hold NUL, non-UTF-8, %, =, /, dots, 252 / 253 / 300 octets; component Types 0, 3, 7, 0x24, 0x2c, 252, '
+        '253, 0x320, 65535, 65536, 2^32-1, 2^32; non-shortest Type / Length forms.  (i) Interests x handlers: bases {plain, '
+        'ApplicationParameters of 0 / 2 / 300 octets, DigestSha256-signed with and without parameters and SignatureNonce/Time, '
+        'signed with a wrong SignatureValue, InterestSignatureInfo without ApplicationParameters}; name layouts: every odd '
+        'component before and after the (correct) ParametersSha256DigestComponent, the digest component absent / one bit wrong / '
+        'all zero / cut or extended to each of the lengths above, in the middle of the name, before the prefix, doubled (right + '
+        'each wrong form, in both orders), several digest components of both kinds, sampled mixtures; every layout meets a plain, '
+        'a parameterised and a signed base (thorough: all eight, four rotations) on both front-ends; rotating: validator (every '
+        'ValidResult constant / True, False, None, a signature check, no validator), handlers at the prefix, the root, its parent, '
+        'one component deeper, a sibling, elsewhere, none (half of the quick-tier cases: a passing validator at the prefix), prefix '
+        'depth 1-2, bare / in an LpPacket with PIT token and CongestionMark, awaited / as a task, CanBePrefix+MustBeFresh, a '
+        'bystander Interest pending, library loggers silent / at DEBUG.  Demanded: reception returns normally, no task ends with '
+        'an unhandled error; only the longest attached prefix of the name is invoked, at most once, with the name and parameters '
+        'the packet carries; it IS invoked when the Interest is plain without digest component, or carries parameters, exactly '
+        'one digest component holding their SHA-256 and the validator the front-end consults passes (interest-not-delivered); it is '
+        'NOT invoked when no component holds that digest or the validator refuses (malformed-interest-delivered); nothing is '
+        'transmitted, the bystander is untouched; afterwards an honest plain and an honest parameterised Interest under the prefix '
+        'are served by exactly the longest attached prefix and the bystander gets its Data.  (ii) Data / Nacks x pending Interests: the '
+        'application waits (alone, twice, beside a CanBePrefix Interest for the prefix, beside another name) for a name holding '
+        'each odd component the encoder accepts (and sampled runs of 2-4), closed by a plain component or not; the Data of that '
+        'name (signed / unsigned; bare / LpPacket) or the Nack returning the very wire (reason 150 / absent) arrives: everybody '
+        'waiting for that name ends with the Data / InterestNack, the prefix Interest with the Data, others are untouched and get '
+        'their own Data afterwards (beside an Interest ending in an EMPTY ImplicitSha256 component only "returns normally, no '
+        'unhandled error" is judged: both front-ends read an empty digest as no digest; C03 owns digest matching).  Also: in the mutant-stream scenarios an Interest whose name no prefix can be '
+        'registered with as a whole (every parameterised / signed Interest) now finds a handler at its longest registrable '
+        'leading part.  '
+        'The packet\'s name against the names in the tables (everything by construction, harness\'s own encoder): the packet -- Nack '
+        '(reason 150 / absent / 0 / 50), Data, Interest -- is named N of depth 0 (the EMPTY name), 1, 2, 3; the pending-Interest table '
+        'holds EVERY subset of {parent of N, N, N + 1 component, N + 2 components, a sibling of N, elsewhere} (CanBePrefix alternating, '
+        'sometimes two Interests at N), the handler table EVERY subset of {root, parent, N, N + 1 component, sibling, elsewhere}: '
+        'every pending subset with a rotating handler subset and every handler subset with a rotating pending subset, for each '
+        'front-end x packet kind x depth (thorough: + a quarter of all pairs); bare / LpPacket with PIT token, awaited / as a task.  In '
+        'particular tables in which the name of the packet is only an INNER node (entries strictly below it, nothing at it) and the '
+        'empty name, of which every entry is an extension.  Demanded: reception returns normally, no task ends with an unhandled error; '
+        'a Data completes exactly the Interests at N and the CanBePrefix Interests above it, a Nack exactly the Interests at N, an '
+        'Interest invokes exactly the longest attached prefix of N once; everything below, beside and elsewhere is untouched, nothing '
+        'is transmitted; afterwards every Interest still pending completes with its own Data and every handler serves an Interest '
+        'under its prefix.  '
         'non-trivial = stream/packet of >= 4 bytes; distinct by (part, input) hash')
 ASSUMPTIONS = [
     'asyncio.StreamReader.readexactly consumes nothing until n bytes are buffered; tasks start in creation order '
@@ -776,7 +828,7 @@ def mutants(ctx, kind, typ, w, descs):
 class Scenario:
     """app with pending Interests and handlers; delivers one packet; checks the frame and the aftermath"""
 
-    def __init__(self, ctx, front, loop, npend, nhand, pkt_name):
+    def __init__(self, ctx, front, loop, npend, nhand, pkt_name, hand_name=None):
         from ndn.encoding import Name
         self.ctx, self.front, self.loop = ctx, front, loop
         rng = ctx.rng
@@ -788,8 +840,8 @@ class Scenario:
         if pkt_name is not None and rng.random() < 0.5:
             pool[rng.randrange(4)] = pkt_name           # one pending Interest is addressed by the packet
         hpool = [Name.from_str('/h/%d' % i) for i in range(3)]
-        if pkt_name is not None and rng.random() < 0.5:
-            hpool[rng.randrange(3)] = pkt_name
+        if hand_name is not None and rng.random() < 0.5:
+            hpool[rng.randrange(3)] = hand_name
 
         async def v2_ok(name, sig, context):
             return front.mod.ValidResult.PASS
@@ -878,7 +930,15 @@ def oracle_receive(ctx, front, loop, origin, typ, w, action, npend, nhand):
                             break
         except Exception:   # noqa
             pn = None
-    sc = Scenario(ctx, front, loop, npend, nhand, pn)
+    hn = pn
+    if hn is None and action[0] == 3 and pkt_name:
+        # an Interest whose name holds components no prefix can be registered with (a ParametersSha256DigestComponent: every
+        # parameterised / signed Interest): a handler sits at the longest leading part that can, so that it is served
+        k = 0
+        while k < len(pkt_name) and usable(pkt_name[k]):
+            k += 1
+        hn = pkt_name[:k] if k else None
+    sc = Scenario(ctx, front, loop, npend, nhand, pn, hn)
     app = sc.app
     case = {'front': front.ver, 'typ': typ, 'wire': w, 'origin': origin, 'pending': [b''.join(bytes(c) for c in n) for n, _, _ in sc.pend],
             'handlers': [b''.join(k) for k in sorted(sc.hits)]}
@@ -969,8 +1029,8 @@ def oracle_receive(ctx, front, loop, origin, typ, w, action, npend, nhand):
 #   G  named N, given up earlier     X  named N, timed out earlier     D / Q  named N, satisfied / nacked earlier
 #   V  named N, satisfied earlier, its validator is still running
 #   P  named by the parent of N with CanBePrefix, waiting      p  the same, caller gives up in this loop turn
-#   U  another name, waiting
-STATE_KINDS = 'WHCTGXDQVPpU'
+#   U  another name, waiting                 B  named N + one more component (strictly BELOW the packet's name), waiting
+STATE_KINDS = 'WHCTGXDQVPpUB'
 T_LIFETIME = 1000       # ms, the T entries
 X_LIFETIME = 40         # ms, the X entries
 
@@ -1139,6 +1199,8 @@ def oracle_states(ctx, front, loop, origin, typ, w, action, word, mode):
                     express(k, nP, 60000, cbp=True)
             elif k == 'U':
                 express(k, nU, 60000)
+            elif k == 'B':
+                express(k, nN + [G.tlv(8, b'below')], 60000)
         for e in entries:
             if e['kind'] == 'G':
                 e['task'].cancel()
@@ -1226,7 +1288,7 @@ def oracle_states(ctx, front, loop, origin, typ, w, action, word, mode):
         return b''.join(nm).hex()
     for e in entries:
         k, o = e['kind'], outcome(e['task'])
-        if k in 'WHPU':
+        if k in 'WHPUB':
             if k == 'W':
                 addressed = action[0] in (2, 4)
             elif k == 'P':
@@ -1299,7 +1361,7 @@ def state_words(ctx):
     for n in range(1, (3 if ctx.thorough else 2) + 1):
         words += [''.join(t) for t in itertools.product(STATE_KINDS, repeat=n)]
     for _ in range(ctx.n(150, 3000)):
-        words.append(''.join(rng.choice('WWWCCTTHGXDQVPpU') for _ in range(rng.randint(3, 6))))
+        words.append(''.join(rng.choice('WWWCCTTHGXDQVPpUBB') for _ in range(rng.randint(3, 6))))
     return words
 
 
@@ -1934,6 +1996,916 @@ def judged_family(ctx, fronts, loop, M):
                             gc.freeze()
 
 
+# ---- names with structurally valid but semantically odd components x handlers / pending Interests ------------------
+# The mutant stream seldom produces, and the tables above never hold, a WELL-FORMED packet whose Name carries components
+# that are legal TLV but odd in meaning: digest components (ImplicitSha256 / ParametersSha256) whose value is not 32
+# octets, several of them, typed components (segment, version, ...) with values of no integer width, empty and
+# unprintable values, unassigned / three-byte / out-of-range component types, non-shortest Type/Length forms.  And a
+# parameterised or signed Interest (its name holds a ParametersSha256DigestComponent, which no handler prefix of the
+# other families can contain) never met an attached handler at all: everything the front-ends do with an incoming
+# Interest between the route lookup and the handler -- the parameter-digest check, the validator, the hand-over task --
+# was only exercised on plain Interests.  Here every such name form is built by the harness's own encoder into honest
+# Interests (plain / with ApplicationParameters / DigestSha256-signed, the digest component correct, absent, wrong,
+# truncated, extended, doubled) addressed to handlers attached above it, and into Data / Nacks addressed to Interests the
+# application is waiting for.
+ON_PREFIXES = ('/on', '/on/svc')
+ON_DIGEST_LENS = (0, 1, 2, 31, 32, 33, 64)
+ON_BASES = ('plain', 'ap0', 'ap2', 'ap300', 'signed', 'signed-ap2', 'signed-bad', 'siginfo-only')
+ON_VALIDATORS = {2: ('PASS', 'digest', 'FAIL', 'ALLOW_BYPASS', 'none', 'SILENCE', 'TIMEOUT'), 1: ('True', 'digest', 'False', 'None')}
+ON_PLACEMENTS = (('P',), ('root',), ('root', 'P'), ('P', 'deep'), ('parent', 'P', 'sibling', 'other'), ('deep',), ('sibling', 'other'), ())
+ON_ENVELOPES = ('bare', 'lp-token', 'lp-cmark-token', 'lp')
+ON_PD_FORMS = ('absent', 'wrong32', 'zero32') + tuple('len%d' % n for n in ON_DIGEST_LENS if n != 32)
+
+
+def on_odd_components():
+    """label -> component wire: legal TLV, odd in meaning"""
+    out = {}
+    for t, tn in ((1, 'implicit'), (2, 'params')):
+        for n in ON_DIGEST_LENS:
+            out[f'{tn}-digest.len{n}'] = G.tlv(t, bytes((7 * i + n + t) & 0xFF for i in range(n)))
+    for t, tn in ((0x32, 'seg'), (0x34, 'off'), (0x36, 'v'), (0x38, 't'), (0x3A, 'seq')):
+        for n in (0, 1, 2, 3, 4, 5, 7, 8, 9, 16):
+            out[f'{tn}.len{n}'] = G.tlv(t, bytes((0x80 + 3 * i + n) & 0xFF for i in range(n)))
+    out['keyword.empty'] = G.tlv(0x20, b'')
+    out['keyword.text'] = G.tlv(0x20, b'kw')
+    out['generic.empty'] = G.tlv(8, b'')
+    for k, v in (('nul', b'\x00'), ('high', b'\xff\xfe\x80'), ('percent', b'%'), ('equals', b'a=b'), ('slash', b'a/b'),
+                 ('dot', b'.'), ('dots', b'...'), ('space', b' '), ('digesturi', b'sha256digest=00'), ('utf8', 'é€'.encode())):
+        out['generic.' + k] = G.tlv(8, v)
+    out['generic.len252'] = G.tlv(8, bytes(252))
+    out['generic.len253'] = G.tlv(8, bytes(range(253)))
+    out['generic.len300'] = G.tlv(8, bytes(300))
+    for t in (0, 3, 7, 0x24, 0x2c, 252, 253, 0x320, 65535, 65536, 0xFFFFFFFF, 1 << 32):
+        out[f'type{t:#x}'] = G.tlv(t, b'ab')
+        out[f'type{t:#x}.empty'] = G.tlv(t, b'')
+    out['nonshortest.type'] = b'\xfd\x00\x08\x01a'
+    out['nonshortest.length'] = b'\x08\xfd\x00\x01a'
+    out['nonshortest.digest-type'] = b'\xfd\x00\x02\x02ab'
+    return out
+
+
+def on_layouts(ctx):
+    """name layouts: lists of tokens 'P' (the prefix), 'x' (a plain component), ('odd', label), ('pd', form) -- a
+    ParametersSha256DigestComponent derived from the digest the packet's parameters really have: 'correct', 'wrong32' (last bit
+    flipped), 'zero32', 'lenN' (the correct digest cut / repeated to N octets); ('pd', 'correct') is left out of plain Interests"""
+    odd = on_odd_components()
+    out = []
+    for lb in odd:
+        out.append(['P', ('odd', lb), ('pd', 'correct')])
+        out.append(['P', ('pd', 'correct'), ('odd', lb)])
+    for f in ON_PD_FORMS:
+        out.append(['P', 'x'] + ([] if f == 'absent' else [('pd', f)]))
+    out.append(['P', ('pd', 'correct')])
+    out.append(['P', 'x', ('pd', 'correct'), 'x'])
+    out.append([('pd', 'correct'), 'P'])
+    for f in ('len0', 'len2', 'len31', 'len33', 'wrong32', 'correct'):
+        out.append(['P', ('pd', f), ('pd', 'correct')])
+        out.append(['P', ('pd', 'correct'), ('pd', f)])
+    out.append(['P', ('odd', 'implicit-digest.len31'), ('odd', 'implicit-digest.len0'), ('pd', 'correct')])
+    out.append(['P', ('odd', 'implicit-digest.len32'), ('pd', 'correct'), ('odd', 'implicit-digest.len33')])
+    out.append(['P', ('odd', 'params-digest.len2'), ('odd', 'implicit-digest.len2'), ('odd', 'seg.len3'), ('pd', 'correct')])
+    out.append(['P', ('odd', 'params-digest.len0'), ('odd', 'params-digest.len1'), ('odd', 'params-digest.len64')])
+    for _ in range(ctx.n(20, 300)):          # sampled mixtures
+        k = ctx.rng.randint(2, 5)
+        lay = ['P'] + [('odd', ctx.rng.choice(sorted(odd))) for _ in range(k)]
+        lay.insert(ctx.rng.randint(1, len(lay)), ('pd', ctx.rng.choice(('correct', 'correct', 'correct') + ON_PD_FORMS[1:])))
+        out.append(lay)
+    return out
+
+
+def on_build_interest(prefix, layout, base, nonce=0x01020304, cbp=False, mbf=False, lifetime=4000):
+    """the harness's own encoder (no library code): an Interest as an honest consumer emits it, except for what the layout
+    says about its name.  Returns (wire, name components, facts) with facts = {'ap': ApplicationParameters value or None,
+    'siginfo': bool, 'sig_ok': the DigestSha256 signature covers what it has to, 'digest': SHA-256 of the parameters}"""
+    import hashlib
+    odd = on_odd_components()
+    ap = {'plain': None, 'ap0': b'', 'ap2': b'hi', 'ap300': bytes(range(256)) + bytes(44), 'signed': b'', 'signed-ap2': b'hi',
+          'signed-bad': b'', 'siginfo-only': None}[base]
+    signed = base in ('signed', 'signed-ap2', 'signed-bad', 'siginfo-only')
+    siginfo = b''
+    if signed:
+        siginfo = G.tlv(0x2c, G.tlv(0x1b, b'\x00') + (G.tlv(0x26, bytes(8)) + G.tlv(0x28, b'\x01\x02') if base == 'signed-ap2' else b''))
+    plain_comps = []
+    for tok in layout:
+        if tok == 'P':
+            plain_comps += prefix
+        elif tok == 'x':
+            plain_comps.append(G.tlv(8, b'x'))
+        elif tok[0] == 'odd' and on_comp_type(odd[tok[1]]) != 2:
+            plain_comps.append(odd[tok[1]])
+    ap_el = G.tlv(0x24, ap) if ap is not None else b''
+    sigval = b''
+    if signed:
+        dg = hashlib.sha256(b''.join(plain_comps) + ap_el + siginfo).digest()
+        if base == 'signed-bad':
+            dg = dg[:-1] + bytes([dg[-1] ^ 1])
+        sigval = G.tlv(0x2e, dg)
+    params = ap_el + siginfo + sigval
+    digest = hashlib.sha256(params).digest()
+    comps = []
+    for tok in layout:
+        if tok == 'P':
+            comps += prefix
+        elif tok == 'x':
+            comps.append(G.tlv(8, b'x'))
+        elif tok[0] == 'odd':
+            comps.append(odd[tok[1]])
+        else:
+            f = tok[1]
+            if f == 'correct':
+                if base == 'plain':
+                    continue
+                v = digest
+            elif f == 'wrong32':
+                v = digest[:-1] + bytes([digest[-1] ^ 1])
+            elif f == 'zero32':
+                v = bytes(32)
+            else:
+                v = (digest * 2)[:int(f[3:])]
+            comps.append(G.tlv(2, v))
+    body = G.tlv(7, b''.join(comps)) + (G.tlv(0x21, b'') if cbp else b'') + (G.tlv(0x12, b'') if mbf else b'') \
+        + G.tlv(0x0a, nonce.to_bytes(4, 'big')) + (G.tlv(0x0c, lifetime.to_bytes(2, 'big')) if lifetime else b'') + params
+    return G.tlv(5, body), comps, {'ap': ap, 'siginfo': signed, 'sig_ok': signed and base != 'signed-bad', 'digest': digest}
+
+
+def on_comp_type(c):
+    try:
+        return TG.read_num(c, 0)[0]
+    except Exception:   # noqa
+        return None
+
+
+def on_envelope(env, inner):
+    if env == 'bare':
+        return inner[0], inner
+    hdr = (G.tlv(0x62, b'\x0a\x0b\x0c\x0d') if 'token' in env else b'') + (G.tlv(0x0340, b'\x01') if 'cmark' in env else b'')
+    return 0x64, G.tlv(0x64, hdr + G.tlv(0x50, inner))
+
+
+class debug_logging:
+    """reception must not depend on the log level: run with every library logger at DEBUG (records are rendered and discarded)"""
+
+    class Sink(logging.Handler):
+        def emit(self, record):
+            try:
+                record.getMessage()
+            except Exception:   # noqa -- what the standard handlers do with a record that cannot be rendered
+                pass
+
+    def __init__(self, on):
+        self.on = on
+
+    def __enter__(self):
+        if self.on:
+            self.lg = logging.getLogger('ndn')
+            self.sink = self.Sink()
+            self.old = (self.lg.level, self.lg.propagate)
+            self.lg.addHandler(self.sink)
+            self.lg.setLevel(logging.DEBUG)
+            self.lg.propagate = False
+            logging.disable(logging.NOTSET)
+
+    def __exit__(self, *a):
+        if self.on:
+            logging.disable(logging.CRITICAL)
+            self.lg.removeHandler(self.sink)
+            self.lg.setLevel(self.old[0])
+            self.lg.propagate = self.old[1]
+        return False
+
+
+def on_usable_prefix(c):
+    """a component the harness may put into a prefix it registers / a name it expresses (the encoder refuses Type 0 and Types
+    beyond 65535; non-shortest forms are not what an application writes)"""
+    try:
+        t, a = TG.read_num(c, 0)
+        ln, b = TG.read_num(c, a)
+    except Exception:   # noqa
+        return False
+    return 0 < t <= 65535 and G.tlv(t, c[a + b:]) == c and a + b + ln == len(c)
+
+
+def oddname_interest_scenario(ctx, front, loop, M, sp):
+    """sp: {'prefix', 'layout', 'base', 'validator', 'handlers': placement names, 'env', 'mode', 'log', 'cbp', 'pending'}"""
+    from ndn.encoding import make_data, MetaInfo, Name
+    ver = front.ver
+    site = f'appv{ver}._receive'
+    VR = getattr(front.mod, 'ValidResult', None)
+    prefix = [bytes(c) for c in Name.from_str(sp['prefix'])]
+    layout = [t if isinstance(t, str) else tuple(t) for t in sp['layout']]
+    try:
+        inner, comps, facts = on_build_interest(prefix, layout, sp['base'], cbp=sp['cbp'], mbf=sp['cbp'])
+    except (KeyError, ValueError, IndexError):
+        return              # a stored case of another harness version
+    typ, w = on_envelope(sp['env'], inner)
+    case = {'front': ver, 'oddname': dict(sp, layout=[t if isinstance(t, str) else list(t) for t in layout]), 'typ': typ, 'wire': w,
+            'name': b''.join(comps)}
+    app = front.new_app()
+    loop.errors.clear()
+    # -- whom the packet addresses: the model's classification of the delivered bytes (the implementation's without a model)
+    action = classify_action(M, front, loop, typ, w, 'oddname')
+    pkt_name = [bytes(c) for c in action[1]] if action[0] == 3 else None
+    if action[0] == 3 and pkt_name != comps:
+        ctx.disagree(site, 'the name the model reads from an Interest the harness built is not the name it was built with', case,
+                     action, comps)
+        return
+    sig_required = facts['ap'] is not None or facts['siginfo']
+    pds = [c for c in comps if on_comp_type(c) == 2]
+    good = [c for c in pds if c == G.tlv(2, facts['digest'])]
+    # -- the producer's tables
+    first_tail = [c for c in comps[len(prefix):len(prefix) + 1] if comps[:len(prefix)] == prefix and on_usable_prefix(c)]
+    positions = {'root': [], 'P': list(prefix), 'parent': prefix[:-1] if len(prefix) > 1 else None,
+                 'deep': prefix + first_tail if first_tail else None,
+                 'sibling': prefix[:-1] + [G.tlv(8, b'sib')], 'other': [G.tlv(8, b'elsewhere')]}
+    vk = sp['validator']
+    consulted = []
+    cur = {'facts': facts}          # of the Interest being processed (what the signature check judges)
+
+    def verdict():
+        if vk == 'digest':
+            ok = cur['facts']['sig_ok'] or not cur['facts']['siginfo']
+            return ((VR.PASS if ok else VR.FAIL) if ver == 2 else ok), ok
+        if ver == 2:
+            return getattr(VR, vk), vk in ('PASS', 'ALLOW_BYPASS')
+        v = {'True': True, 'False': False, 'None': None}[vk]
+        return v, bool(v)
+    if ver == 2:
+        async def val(name, sig, context):
+            consulted.append([bytes(c) for c in name])
+            return verdict()[0]
+    else:
+        async def val(name, sig):
+            consulted.append([bytes(c) for c in name])
+            return verdict()[0]
+    hits = {}
+    try:
+        for pos in sp['handlers']:
+            if positions.get(pos) is None or pos in hits or any(positions[pos] == positions[q] for q in hits):
+                continue
+            hits[pos] = []
+            if ver == 2:
+                def h(name, app_param, reply, context, pos=pos):
+                    hits[pos].append(([bytes(c) for c in name], None if app_param is None else bytes(app_param)))
+                app.attach_handler(list(positions[pos]), h, None if vk == 'none' else val)
+            else:
+                def h(name, param, app_param, pos=pos):
+                    hits[pos].append(([bytes(c) for c in name], None if app_param is None else bytes(app_param)))
+                app.set_interest_filter(list(positions[pos]), h, val)
+    except Exception as e:   # noqa
+        ctx.violation(site, f'history-raises:{exc_class(e)}', f'attaching the handlers raised {e!r}', case)
+        return
+    # the decision the front-ends document: v2 consults the validator for every Interest with parameters or a signature (no
+    # validator: refused); v1 consults it for signed Interests only
+    if ver == 2:
+        passes = (not sig_required) or (vk != 'none' and verdict()[1])
+    else:
+        passes = (not facts['siginfo']) or verdict()[1]
+    att = [k for k in hits if pkt_name is not None and positions[k] == pkt_name[:len(positions[k])]]
+    best = max(att, key=lambda k: len(positions[k])) if att else None
+    if pkt_name is None:
+        demand = 'drop'                     # not an Interest the decoder accepts
+    elif not sig_required:
+        demand = 'deliver' if not pds else 'either'         # (a digest component without parameters: C02 / C07 own its meaning)
+    elif facts['ap'] is None:
+        demand = 'drop' if not any(len(c) == 34 for c in pds) else 'either'
+    elif not good:
+        demand = 'drop'                     # no component holds the digest of the parameters
+    elif len(pds) == 1:
+        demand = 'deliver' if passes else 'drop'
+    else:
+        demand = 'either' if passes else 'drop'             # several digest components, one of them right (C02 owns which counts)
+    # -- somebody else is waiting for something else
+    pend = []
+    if sp['pending']:
+        async def ok2(name, sig, context):
+            return VR.PASS
+
+        async def ok1(name, sig):
+            return True
+
+        async def go_express():
+            nU = [G.tlv(8, b'on-unrelated'), G.tlv(8, b'u')]
+            co = app.express(nU, ok2, lifetime=60000, nonce=5) if ver == 2 else \
+                app.express_interest(nU, validator=ok1, lifetime=60000, nonce=5)
+            return nU, loop.create_task(co)
+        try:
+            pend.append(loop.run_until_complete(go_express()))
+            loop.settle()
+        except Exception as e:   # noqa
+            ctx.violation(site, f'history-raises:{exc_class(e)}', f'expressing an Interest raised {e!r}', case)
+            return
+    sent0 = len(app.face.sent)
+
+    def finish():
+        for _, t in pend:
+            if not t.done():
+                t.cancel()
+        loop.settle()
+        retrieve([t for _, t in pend])
+        loop.collect_errors()
+        loop.errors.clear()
+
+    # -- the packet
+    def deliver(typ_, w_, mode):
+        """-> exception out of reception (or None)"""
+        exc = None
+        if mode == 'await':
+            async def go_await():
+                try:
+                    await app._receive(typ_, w_)
+                    return None
+                except Exception as e:   # noqa
+                    return e
+            exc = loop.run_until_complete(go_await())
+            loop.settle()
+        else:
+            async def go_task():
+                return loop.create_task(app._receive(typ_, w_))
+            rx = loop.run_until_complete(go_task())
+            loop.settle()
+            if not rx.done():
+                ctx.violation(site, 'reception-does-not-return', 'the reception task is still running at quiescence', case)
+                rx.cancel()
+                loop.settle()
+            elif not rx.cancelled():
+                exc = rx.exception()
+        return exc
+    where = {0: 'decode', 1: 'decode', 2: '_on_nack', 3: '_on_interest', 4: '_on_data'}[action[0]] + ('+debug-log' if sp['log'] else '')
+    what = f'{sp["base"]} Interest, name {"/".join(t if isinstance(t, str) else t[0] + ":" + t[1] for t in layout)}'
+    with debug_logging(sp['log']):
+        exc = deliver(typ, w, sp['mode'])
+        if exc is not None:
+            ctx.violation(site, f'raises:{exc_class(exc)}:{where}',
+                          f'_receive raised {type(exc).__name__} ({str(exc)[:80]}) on a well-formed {what}', case)
+        errs = loop.collect_errors()
+        loop.errors.clear()
+        if errs:
+            e = errs[0].get('exception')
+            ctx.violation(site, f'loop-error:{exc_class(e) if e is not None else "none"}',
+                          f'a background task ended with an unhandled error ({what}): {errs[0].get("message")} {e!r}', case)
+        # -- dropped or handled: by the longest attached prefix, once, with what the packet says; nobody else
+        for k in hits:
+            n = len(hits[k])
+            if k != best:
+                if n:
+                    ctx.violation(site, 'handler-disturbed', f'the handler at {k} was invoked by an Interest it does not serve ({what})', case)
+                continue
+            if n > 1:
+                ctx.violation(site, 'handler-invoked-twice', f'the handler at {k} was invoked {n} times by one Interest ({what})', case)
+            elif n == 1 and hits[k][0] != (pkt_name, facts['ap']):
+                ctx.violation(site, 'handler-wrong-arguments', f'the handler at {k} got another name / ApplicationParameters than the packet carries ({what})', case)
+            if n == 0 and demand == 'deliver':
+                ctx.violation(site, 'interest-not-delivered',
+                              f'a well-formed {what} (digest component right, validator {vk}) did not reach the handler at {k}', case)
+            if n and demand == 'drop':
+                ctx.violation(site, 'malformed-interest-delivered',
+                              f'{what} (validator {vk}) has to be dropped but reached the handler at {k}', case)
+        if len(app.face.sent) != sent0:
+            ctx.violation(site, 'interest-caused-transmission', 'something was transmitted although no handler replies', case)
+        for nm, t in pend:
+            if t.done():
+                ctx.violation(site, 'pending-interest-disturbed', 'an Interest the application waits for was completed by an incoming Interest', case)
+        # -- aftermath: honest Interests under the same prefix still reach exactly the longest attached prefix
+        for k in hits:
+            hits[k].clear()
+        for ab in ('plain', 'ap2'):
+            aw, acomps, cur['facts'] = on_build_interest(prefix, ['P', 'x', ('pd', 'correct')], ab, nonce=99)
+            att2 = [k for k in hits if positions[k] == acomps[:len(positions[k])]]
+            best2 = max(att2, key=lambda k: len(positions[k])) if att2 else None
+            exc = deliver(5, aw, 'await')
+            if exc is not None:
+                ctx.violation(site, f'aftermath-error:{exc_class(exc)}', f'an honest {ab} Interest afterwards raised {exc!r}', case)
+            want = 1 if (ab == 'plain' or ver == 1 or (vk != 'none' and verdict()[1])) else 0
+            for k in hits:
+                if len(hits[k]) != (want if k == best2 else 0):
+                    ctx.violation(site, 'handler-lost' if k == best2 else 'handler-disturbed',
+                                  f'afterwards an honest {ab} Interest under {sp["prefix"]} invoked the handler at {k} {len(hits[k])} time(s)', case)
+                hits[k].clear()
+        for nm, t in pend:
+            if t.done():
+                continue
+            exc = deliver(6, bytes(make_data(list(nm), MetaInfo(), b'after')), 'await')
+            ok = exc is None and t.done() and not t.cancelled() and t.exception() is None
+            if ok:
+                r = t.result()
+                content = r[1] if ver == 2 else r[2]
+                ok = content is not None and bytes(content) == b'after'
+            if not ok:
+                ctx.violation(site, 'pending-interest-lost', 'the Interest the application waits for does not complete with its Data afterwards', case)
+        errs = loop.collect_errors()
+        loop.errors.clear()
+        if errs:
+            e = errs[0].get('exception')
+            ctx.violation(site, f'aftermath-error:{exc_class(e) if e is not None else "none"}',
+                          f'loop exception handler called afterwards: {errs[0].get("message")} {e!r}', case)
+    finish()
+    ctx.stat(f'oddname.interest.v{ver}.{demand}')
+    kind = layout[1][1].split('.')[0] if len(layout) > 1 and not isinstance(layout[1], str) else 'x'
+    ctx.case(('on', ver, repr(sorted(case['oddname'].items()))), True, case if len(w) < 120 else None,
+             f'recv.v{ver}.oddname.interest.{sp["base"]}.{kind}.{["drop", "raise", "nack", "interest", "data"][action[0]]}')
+
+
+def on_build_data(comps, content=b'odd', signed=True):
+    """the harness's own encoder: Data{Name, MetaInfo{}, Content, [DigestSha256 SignatureInfo, SignatureValue]}"""
+    import hashlib
+    body = G.tlv(7, b''.join(comps)) + G.tlv(0x14, b'') + G.tlv(0x15, content)
+    if signed:
+        body += G.tlv(0x16, G.tlv(0x1b, b'\x00'))
+        body += G.tlv(0x17, hashlib.sha256(body).digest())
+    return G.tlv(6, body)
+
+
+def oddname_pending_scenario(ctx, front, loop, M, sp):
+    """sp: {'prefix', 'tail': [odd labels], 'close': bool (a plain last component follows), 'packet': 'data' | 'data-unsigned' |
+    'nack' | 'nack-noreason', 'table': word over W (waits for the name) / P (waits for the prefix, CanBePrefix) / U (another name), 'env',
+    'mode', 'log'}"""
+    import hashlib
+    from ndn.encoding import Name
+    from ndn.types import InterestNack
+    ver = front.ver
+    site = f'appv{ver}._receive'
+    VR = getattr(front.mod, 'ValidResult', None)
+    odd = on_odd_components()
+    prefix = [bytes(c) for c in Name.from_str(sp['prefix'])]
+    try:
+        nN = prefix + [odd[lb] for lb in sp['tail']] + ([G.tlv(8, b'z')] if sp['close'] else [])
+    except KeyError:
+        return
+    nU = [G.tlv(8, b'on-unrelated'), G.tlv(8, b'u')]
+    case = {'front': ver, 'oddpend': dict(sp), 'name': b''.join(nN)}
+    if not all(on_usable_prefix(c) and on_comp_type(c) != 2 for c in nN):
+        # (the encoder refuses Type 0, Types beyond 65535 and a ParametersSha256DigestComponent in an Interest without parameters)
+        ctx.stat('oddname.pending.not-expressible')
+        return
+    implicit = nN[-1][:1] == b'\x01'            # the last component is an implicit digest: the Data is named by the rest
+    implicit0 = implicit and len(nN[-1]) == 2   # ... with an EMPTY value: both front-ends take it for "no digest" (docs/C06.md)
+    app = front.new_app()
+    loop.errors.clear()
+
+    async def ok2(name, sig, context):
+        return VR.PASS
+
+    async def ok1(name, sig):
+        return True
+    entries = []
+
+    def express(kind, nm, cbp):
+        async def go():
+            if ver == 2:
+                co = app.express(list(nm), ok2, lifetime=60000, can_be_prefix=cbp, nonce=len(entries) + 1)
+            else:
+                co = app.express_interest(list(nm), validator=ok1, lifetime=60000, can_be_prefix=cbp, nonce=len(entries) + 1)
+            return loop.create_task(co)
+        n0 = len(app.face.sent)
+        t = loop.run_until_complete(go())
+        loop.settle()
+        entries.append({'kind': kind, 'name': list(nm), 'task': t, 'cbp': cbp,
+                        'wire': app.face.sent[n0] if len(app.face.sent) > n0 else None})
+
+    def finish():
+        for e in entries:
+            if not e['task'].done():
+                e['task'].cancel()
+        loop.settle()
+        retrieve([e['task'] for e in entries])
+        loop.collect_errors()
+        loop.errors.clear()
+    with debug_logging(sp['log']):
+        try:
+            for k in sp['table']:
+                if k == 'W':
+                    express(k, nN, False)
+                elif k == 'P':
+                    express(k, prefix, True)
+                elif k == 'U':
+                    express(k, nU, False)
+        except Exception as e:   # noqa
+            ctx.violation(site, f'history-raises:{exc_class(e)}', f'expressing an Interest for a name with the components {sp["tail"]} raised {e!r}', case)
+            finish()
+            return
+        for e in entries:
+            if e['task'].done():
+                ctx.violation(site, 'history-outcome', f'entry {e["kind"]} ended while it was being expressed: {e["task"]!r:.100}', case)
+                finish()
+                return
+        mine = [e for e in entries if e['kind'] == 'W' and e['wire'] is not None]
+        pk = sp['packet']
+        if pk.startswith('nack'):
+            inter = bytes(mine[0]['wire']) if mine else None
+            if not mine:
+                # nobody waits for it: a Nack returning an Interest of that name all the same
+                inter = G.tlv(5, G.tlv(7, b''.join(nN)) + G.tlv(0x0a, b'\x01\x02\x03\x04'))
+            reason = None if pk == 'nack-noreason' else 150
+            inner = None
+            typ, w = 0x64, G.tlv(0x64, (G.tlv(0x62, b'\x0a\x0b') if 'token' in sp['env'] else b'')
+                                 + G.tlv(0x0320, b'' if reason is None else G.tlv(0x0321, bytes([reason]))) + G.tlv(0x50, inter))
+        else:
+            dname = nN[:-1] if implicit else nN
+            inner = on_build_data(dname, b'odd', signed=(pk == 'data'))
+            typ, w = on_envelope(sp['env'], inner)
+        case['typ'], case['wire'] = typ, w
+        action = classify_action(M, front, loop, typ, w, 'oddname')
+        if pk.startswith('nack'):
+            r = ref_nack(w)
+            if r is not None:
+                action = [2, r[0], (0 if front.nd is None else front.nd) if r[1] is None else r[1]]      # a Nack by construction
+        pkt_name = [bytes(c) for c in action[1]] if action[0] in (2, 4) else None
+        before = [e['task'].done() for e in entries]
+        exc = None
+        if sp['mode'] == 'await':
+            async def go_await():
+                try:
+                    await app._receive(typ, w)
+                    return None
+                except Exception as e:   # noqa
+                    return e
+            exc = loop.run_until_complete(go_await())
+            loop.settle()
+        else:
+            async def go_task():
+                return loop.create_task(app._receive(typ, w))
+            rx = loop.run_until_complete(go_task())
+            loop.settle()
+            if not rx.done():
+                ctx.violation(site, 'reception-does-not-return', 'the reception task is still running at quiescence', case)
+                rx.cancel()
+                loop.settle()
+            elif not rx.cancelled():
+                exc = rx.exception()
+        where = {0: 'decode', 1: 'decode', 2: '_on_nack', 3: '_on_interest', 4: '_on_data'}[action[0]] + ('+debug-log' if sp['log'] else '')
+        what = f'{pk} named {sp["prefix"]} + {sp["tail"]}'
+        if exc is not None:
+            ctx.violation(site, f'raises:{exc_class(exc)}:{where}', f'_receive raised {type(exc).__name__} ({str(exc)[:80]}) on a well-formed {what}', case)
+
+        def outcome(t):
+            if not t.done():
+                return ('pending',)
+            if t.cancelled():
+                return ('CancelledError',)
+            e = t.exception()
+            if e is None:
+                r = t.result()
+                content = r[1] if ver == 2 else r[2]
+                return ('data', [bytes(c) for c in r[0]], None if content is None else bytes(content))
+            if isinstance(e, InterestNack):
+                return ('nack', e.reason)
+            return (exc_class(e),)
+        for e, b4 in zip(entries, before):
+            if implicit0:
+                break           # whom a packet addresses beside an Interest ending in an empty implicit digest is C03's business
+            if action[0] == 4:
+                if e['kind'] == 'W':
+                    addressed = (pkt_name == nN and not implicit) or \
+                        (implicit and pkt_name == nN[:-1] and G.tlv(1, hashlib.sha256(inner).digest()) == nN[-1])
+                elif e['kind'] == 'P':
+                    addressed = pkt_name[:len(e['name'])] == e['name']
+                else:
+                    addressed = False
+                want = ('data', pkt_name, b'odd')
+            elif action[0] == 2:
+                addressed = e['kind'] == 'W' and pkt_name == nN       # (everybody waiting under that name)
+                want = ('nack', action[2])
+            else:
+                addressed, want = False, None
+            o = outcome(e['task'])
+            if addressed:
+                okv = o == want or (want[0] == 'nack' and pk == 'nack-noreason' and o[0] == 'nack' and o[1] in (None, 0))
+                if not okv:
+                    ctx.violation(site, 'pending-interest-not-completed',
+                                  f'entry {e["kind"]} is addressed by the {what}; expected {want!r:.80}, it is {o!r:.80}', case)
+            elif o != ('pending',) and not b4:
+                ctx.violation(site, 'pending-interest-disturbed', f'entry {e["kind"]} is not addressed by the {what} and ended with {o!r:.80}', case)
+        # -- aftermath: whoever still waits completes with its own Data
+        for e in entries:
+            if e['task'].done():
+                continue
+            if e['kind'] == 'W' and implicit:
+                continue            # (only the Data with exactly that digest could; nothing to demand)
+            d = on_build_data(e['name'], b'after', signed=False)
+            try:
+                loop.run_until_complete(app._receive(6, d))
+                loop.settle()
+                o = outcome(e['task'])
+            except Exception as e2:   # noqa
+                o = ('reception raised ' + exc_class(e2),)
+            if o[0] != 'data' or o[2] != b'after':
+                ctx.violation(site, 'pending-interest-lost', f'entry {e["kind"]} does not complete with its Data afterwards ({o!r:.80})', case)
+        errs = loop.collect_errors()
+        loop.errors.clear()
+        if errs:
+            e = errs[0].get('exception')
+            ctx.violation(site, f'loop-error:{exc_class(e) if e is not None else "none"}',
+                          f'a background task ended with an unhandled error ({what}): {errs[0].get("message")} {e!r}', case)
+    finish()
+    ctx.case(('op', ver, repr(sorted(case['oddpend'].items()))), True, case if len(w) < 160 else None,
+             f'recv.v{ver}.oddname.{pk}.{sp["tail"][0].split(".")[0] if sp["tail"] else "none"}.{["drop", "raise", "nack", "interest", "data"][action[0]]}')
+
+
+def oddname_family(ctx, fronts, loop, M):
+    """every name layout x {plain, one parameterised, one signed base} (thorough: every base) on both front-ends; validator,
+    handler placement, prefix depth, envelope, hand-over, log level, CanBePrefix/MustBeFresh and a bystander rotate (thorough:
+    sampled three more times).  Then every odd component (and sampled pairs) in the name of an Interest the application waits
+    for, against its Data / Nack."""
+    rng = ctx.rng
+    layouts = on_layouts(ctx)
+    i = 0
+
+    def tick():
+        if i % 400 == 1:
+            gc.collect()
+            gc.freeze()
+    for f in fronts:
+        vals = ON_VALIDATORS[f.ver]
+        for li, lay in enumerate(layouts):
+            if ctx.thorough:
+                bases = ON_BASES
+            else:
+                bases = ('plain', ON_BASES[1 + li % 3], ON_BASES[4 + (li // 3) % 4])
+            for base in bases:
+                for rep in range(ctx.n(1, 4)):
+                    i += 1
+                    r0 = rep == 0
+                    sp = {'prefix': ON_PREFIXES[i % 2] if r0 else rng.choice(ON_PREFIXES), 'layout': [t if isinstance(t, str) else list(t) for t in lay],
+                          'base': base,
+                          'validator': vals[(i // 2) % len(vals)] if r0 else rng.choice(vals),
+                          'handlers': list(ON_PLACEMENTS[(i // 3) % len(ON_PLACEMENTS)] if r0 else rng.choice(ON_PLACEMENTS)),
+                          'env': ON_ENVELOPES[(i // 5) % 4] if r0 else rng.choice(ON_ENVELOPES),
+                          'mode': ('task', 'await')[(i // 7) % 2] if r0 else rng.choice(('task', 'await')),
+                          'log': (i // 11) % 3 == 0 if r0 else rng.random() < 0.3,
+                          'cbp': (i // 13) % 4 == 0 if r0 else rng.random() < 0.25,
+                          'pending': (i // 17) % 3 == 0 if r0 else rng.random() < 0.3}
+                    # half of the quick-tier cases keep the most telling tables: a passing validator at the prefix itself
+                    if r0 and i % 2 == 0:
+                        sp['validator'], sp['handlers'] = vals[0], ['P'] if i % 4 else ['root', 'P']
+                    oddname_interest_scenario(ctx, f, loop, M, sp)
+                    tick()
+    odd = sorted(on_odd_components())
+    tails = [[lb] for lb in odd]
+    for _ in range(ctx.n(30, 600)):
+        tails.append([rng.choice(odd) for _ in range(rng.randint(2, 4))])
+    packets = ('data', 'nack', 'data-unsigned', 'nack-noreason')
+    tables = ('W', 'WU', 'PW', 'U', 'WP', 'WW')
+    for f in fronts:
+        for ti, tail in enumerate(tails):
+            for close in (True, False):
+                for pk in (packets if ctx.thorough else (packets[(ti + close) % 2], packets[2 + (ti + close) % 2])[:1 + (ti % 2)]):
+                    i += 1
+                    sp = {'prefix': ON_PREFIXES[i % 2], 'tail': tail, 'close': close, 'packet': pk,
+                          'table': tables[(i // 2) % len(tables)], 'env': ON_ENVELOPES[(i // 3) % 4],
+                          'mode': ('task', 'await')[(i // 5) % 2], 'log': (i // 7) % 3 == 0}
+                    oddname_pending_scenario(ctx, f, loop, M, sp)
+                    tick()
+
+
+# ---- the packet's name against the names in the tables: above, at, below, beside, elsewhere; the empty name -------------
+# Both tables are tries keyed by name components.  The families above put entries AT the packet's name, at its parent
+# (CanBePrefix), and under unrelated names -- never strictly BELOW it, so a packet never met a table in which its name is only
+# an inner node (something pending / attached under a longer name, nothing at the name itself), and never carried the empty
+# name `/`, of which every entry is an extension.  Here the packet (Nack, Data, Interest) is named N of depth 0-3 and each table
+# holds a subset of {parent of N, N, N + 1 component, N + 2 components, a sibling, elsewhere} (handlers: also the root).
+REL_PENDING = ('parent', 'at', 'below1', 'below2', 'sibling', 'other')
+REL_HANDLERS = ('root', 'parent', 'at', 'below1', 'sibling', 'other')
+REL_PACKETS = ('nack', 'data', 'interest')
+REL_REASONS = (150, None, 0, 50)
+
+
+def rel_names(depth):
+    """relation -> name (component list) relative to the packet's name N of that depth; None where there is no such name"""
+    c = lambda x: G.tlv(8, x)   # noqa
+    nN = [c(b'rel'), c(b'a'), c(b'b')][:depth]
+    return nN, {'root': [], 'parent': nN[:-1] if depth >= 2 else None, 'at': list(nN) if depth >= 1 else None,
+                'below1': nN + [c(b'x')], 'below2': nN + [c(b'x'), c(b'y')],
+                'sibling': nN[:-1] + [c(b'sib')] if depth >= 1 else None, 'other': [c(b'elsewhere'), c(b'o')]}
+
+
+def relation_scenario(ctx, front, loop, M, sp):
+    """sp: {'depth', 'packet', 'pending': [[relation, CanBePrefix]...], 'handlers': [relation...], 'reason', 'lp', 'mode'}"""
+    from ndn.types import InterestNack
+    ver = front.ver
+    site = f'appv{ver}._receive'
+    VR = getattr(front.mod, 'ValidResult', None)
+    nN, names = rel_names(sp['depth'])
+    app = front.new_app()
+    case = {'front': ver, 'relation': dict(sp), 'name': b''.join(nN)}
+    loop.errors.clear()
+
+    async def ok2(name, sig, context):
+        return VR.PASS
+
+    async def ok1(name, sig):
+        return True
+    hits = {}
+    entries = []
+
+    def finish():
+        for e in entries:
+            if not e['task'].done():
+                e['task'].cancel()
+        loop.settle()
+        retrieve([e['task'] for e in entries])
+        loop.collect_errors()
+        loop.errors.clear()
+
+    def is_prefix(a, b):
+        return len(a) <= len(b) and b[:len(a)] == a
+    try:
+        for rel in sp['handlers']:
+            if names.get(rel) is None or rel in hits or any(names[rel] == names[q] for q in hits):
+                continue
+            hits[rel] = []
+            if ver == 2:
+                def h(name, app_param, reply, context, rel=rel):
+                    hits[rel].append([bytes(c) for c in name])
+                app.attach_handler(list(names[rel]), h, ok2)
+            else:
+                def h(name, param, app_param, rel=rel):
+                    hits[rel].append([bytes(c) for c in name])
+                app.set_interest_filter(list(names[rel]), h, ok1)
+        for rel, cbp in sp['pending']:
+            if names.get(rel) is None:
+                continue
+
+            async def go(nm=names[rel], cbp=cbp):
+                if ver == 2:
+                    co = app.express(list(nm), ok2, lifetime=60000, can_be_prefix=bool(cbp), nonce=len(entries) + 1)
+                else:
+                    co = app.express_interest(list(nm), validator=ok1, lifetime=60000, can_be_prefix=bool(cbp), nonce=len(entries) + 1)
+                return loop.create_task(co)
+            n0 = len(app.face.sent)
+            t = loop.run_until_complete(go())
+            loop.settle()
+            entries.append({'rel': rel, 'name': list(names[rel]), 'cbp': bool(cbp), 'task': t,
+                            'wire': app.face.sent[n0] if len(app.face.sent) > n0 else None})
+    except Exception as e:   # noqa
+        ctx.violation(site, f'history-raises:{exc_class(e)}', f'building the tables raised {e!r}', case)
+        finish()
+        return
+    for e in entries:
+        if e['task'].done():
+            ctx.violation(site, 'history-outcome', f'the Interest {e["rel"]} ended while it was being expressed', case)
+            finish()
+            return
+    # -- the packet, by the harness's own encoder
+    pk = sp['packet']
+    reason = sp['reason']
+    mine = [e for e in entries if e['rel'] == 'at' and e['wire'] is not None]
+    if pk == 'nack':
+        inter = bytes(mine[0]['wire']) if mine else G.tlv(5, G.tlv(7, b''.join(nN)) + G.tlv(0x0a, b'\x01\x02\x03\x04') + G.tlv(0x0c, b'\x0f\xa0'))
+        typ, w = 0x64, G.tlv(0x64, (G.tlv(0x62, b'\x0a\x0b') if sp['lp'] else b'')
+                             + G.tlv(0x0320, b'' if reason is None else G.tlv(0x0321, bytes([reason]))) + G.tlv(0x50, inter))
+    else:
+        inner = on_build_data(nN, b'rel', signed=False) if pk == 'data' else \
+            G.tlv(5, G.tlv(7, b''.join(nN)) + G.tlv(0x0a, b'\x01\x02\x03\x04') + G.tlv(0x0c, b'\x0f\xa0'))
+        typ, w = on_envelope('lp-token' if sp['lp'] else 'bare', inner)
+    case['typ'], case['wire'] = typ, w
+    action = classify_action(M, front, loop, typ, w, 'relation')
+    kind = {'nack': 2, 'data': 4, 'interest': 3}[pk]
+    if sp['depth'] >= 1 and pk == 'nack':
+        action = [2, list(nN), (0 if front.nd is None else front.nd) if reason is None else reason]     # a Nack by construction
+    if action[0] == kind and [bytes(c) for c in action[1]] != nN:
+        ctx.disagree(site, 'the name read from a packet the harness built is not the name it was built with', case, action, nN)
+        finish()
+        return
+    if sp['depth'] >= 1 and action[0] != kind:
+        ctx.disagree(site, f'a well-formed {pk} the harness built is not classified as one', case, action, kind)
+        finish()
+        return
+    accepted = action[0] == kind        # (the empty name: whether the decoders take it at all is C07's; what follows is ours)
+    sent0 = len(app.face.sent)
+    before = [e['task'].done() for e in entries]
+    exc = None
+    if sp['mode'] == 'await':
+        async def go_await():
+            try:
+                await app._receive(typ, w)
+                return None
+            except Exception as e:   # noqa
+                return e
+        exc = loop.run_until_complete(go_await())
+        loop.settle()
+    else:
+        async def go_task():
+            return loop.create_task(app._receive(typ, w))
+        rx = loop.run_until_complete(go_task())
+        loop.settle()
+        if not rx.done():
+            ctx.violation(site, 'reception-does-not-return', 'the reception task is still running at quiescence', case)
+            rx.cancel()
+            loop.settle()
+        elif not rx.cancelled():
+            exc = rx.exception()
+    where = {0: 'decode', 1: 'decode', 2: '_on_nack', 3: '_on_interest', 4: '_on_data'}[action[0]]
+    table = ','.join(f'{e["rel"]}{"*" if e["cbp"] else ""}' for e in entries) or 'empty'
+    what = f'{pk} named {"/" if not nN else b"/".join(c[2:] for c in nN).decode()} (pending: {table}; handlers: {",".join(hits) or "none"})'
+    if exc is not None:
+        ctx.violation(site, f'raises:{exc_class(exc)}:{where}', f'_receive raised {type(exc).__name__} ({str(exc)[:80]}) on a {what}', case)
+
+    def outcome(t):
+        if not t.done():
+            return ('pending',)
+        if t.cancelled():
+            return ('CancelledError',)
+        e = t.exception()
+        if e is None:
+            r = t.result()
+            content = r[1] if ver == 2 else r[2]
+            return ('data', [bytes(c) for c in r[0]], None if content is None else bytes(content))
+        if isinstance(e, InterestNack):
+            return ('nack', e.reason)
+        return (exc_class(e),)
+    # -- who is addressed, by name
+    for e, b4 in zip(entries, before):
+        if accepted and pk == 'data':
+            addressed = e['name'] == nN or (e['cbp'] and is_prefix(e['name'], nN))
+            want = ('data', nN, b'rel')
+        elif accepted and pk == 'nack':
+            addressed = e['name'] == nN
+            want = ('nack', action[2])
+        else:
+            addressed, want = False, None
+        o = outcome(e['task'])
+        if addressed:
+            if o != want and not (want[0] == 'nack' and reason is None and o[0] == 'nack' and o[1] in (None, 0)):
+                ctx.violation(site, 'pending-interest-not-completed',
+                              f'the Interest {e["rel"]}{"*" if e["cbp"] else ""} is addressed by the {what}; expected {want!r:.60}, it is {o!r:.60}', case)
+        elif o != ('pending',):
+            ctx.violation(site, 'pending-interest-disturbed',
+                          f'the Interest {e["rel"]}{"*" if e["cbp"] else ""} is not addressed by the {what} and ended with {o!r:.60}', case)
+    att = [k for k in hits if is_prefix(names[k], nN)]
+    best = max(att, key=lambda k: len(names[k])) if att else None
+    for k in hits:
+        want_n = 1 if (accepted and pk == 'interest' and k == best) else 0
+        if len(hits[k]) != want_n:
+            cls = 'handler-disturbed' if len(hits[k]) > want_n else 'interest-not-delivered'
+            ctx.violation(site, cls, f'the handler at {k} was invoked {len(hits[k])} time(s) by the {what}; expected {want_n}', case)
+    if len(app.face.sent) != sent0:
+        ctx.violation(site, 'packet-caused-transmission', f'something was transmitted in response to the {what}', case)
+    # -- aftermath: whoever still waits gets its own Data (shorter names first: a Data also satisfies the CanBePrefix Interests
+    #    above it, which are then served already); every handler still serves the Interests under its prefix
+    for e in sorted(entries, key=lambda e: len(e['name'])):
+        if e['task'].done():
+            continue
+        try:
+            loop.run_until_complete(app._receive(6, on_build_data(e['name'], b'after', signed=False)))
+            loop.settle()
+            o = outcome(e['task'])
+        except Exception as e2:   # noqa
+            o = ('reception raised ' + exc_class(e2),)
+        if o != ('data', e['name'], b'after'):
+            ctx.violation(site, 'pending-interest-lost', f'the Interest {e["rel"]} does not complete with its Data after the {what} ({o!r:.80})', case)
+    for k in hits:
+        for q in hits:
+            hits[q].clear()
+        iw = G.tlv(5, G.tlv(7, b''.join(names[k] + [G.tlv(8, b'probe')])) + G.tlv(0x0a, b'\x09\x09\x09\x09'))
+        try:
+            loop.run_until_complete(app._receive(5, iw))
+            loop.settle()
+        except Exception as e2:   # noqa
+            ctx.violation(site, f'aftermath-error:{exc_class(e2)}', f'an Interest for the handler at {k} raised {e2!r} after the {what}', case)
+        for q in hits:
+            if len(hits[q]) != (1 if q == k else 0):
+                ctx.violation(site, 'handler-lost' if q == k else 'handler-disturbed',
+                              f'after the {what} an Interest under {k} invoked the handler at {q} {len(hits[q])} time(s)', case)
+    errs = loop.collect_errors()
+    loop.errors.clear()
+    if errs:
+        e = errs[0].get('exception')
+        ctx.violation(site, f'loop-error:{exc_class(e) if e is not None else "none"}',
+                      f'a background task ended with an unhandled error ({what}): {errs[0].get("message")} {e!r}', case)
+    finish()
+    rels = {e['rel'] for e in entries}
+    shape = 'empty' if not rels else ('only-below' if rels <= {'below1', 'below2'} else ('at' if 'at' in rels else 'mixed'))
+    ctx.case(('rel', ver, repr(sorted(case['relation'].items()))), True, case,
+             f'recv.v{ver}.relation.{pk}.depth{sp["depth"]}.{shape}.{["drop", "raise", "nack", "interest", "data"][action[0]]}')
+
+
+def relation_family(ctx, fronts, loop, M):
+    """front-end x packet kind x depth of the packet's name (0 = the empty name) x EVERY subset of the pending relations (handler
+    subset rotating) and EVERY subset of the handler relations (pending subset rotating); CanBePrefix, reason form, LpPacket
+    envelope and hand-over rotate (thorough: every pending subset x every handler subset once more, sampled rotations)"""
+    import itertools
+    rng = ctx.rng
+    psubs = [list(c) for n in range(len(REL_PENDING) + 1) for c in itertools.combinations(REL_PENDING, n)]
+    hsubs = [list(c) for n in range(len(REL_HANDLERS) + 1) for c in itertools.combinations(REL_HANDLERS, n)]
+    i = 0
+    for f in fronts:
+        for pk in REL_PACKETS:
+            for depth in (0, 1, 2, 3):
+                pairs = [(ps, hsubs[(7 * j + 3) % len(hsubs)]) for j, ps in enumerate(psubs)] + \
+                        [(psubs[(11 * j + 5) % len(psubs)], hs) for j, hs in enumerate(hsubs)]
+                if ctx.thorough:
+                    pairs += [(ps, hs) for ps in psubs for hs in hsubs if rng.random() < 0.25]
+                for ps, hs in pairs:
+                    i += 1
+                    sp = {'depth': depth, 'packet': pk, 'handlers': hs,
+                          'pending': [[r, (i + j) % 2] for j, r in enumerate(ps)] + ([['at', i % 2 == 0]] if 'at' in ps and i % 3 == 0 else []),
+                          'reason': REL_REASONS[i % 4], 'lp': (i // 2) % 2 == 1, 'mode': ('task', 'await')[(i // 3) % 2]}
+                    relation_scenario(ctx, f, loop, M, sp)
+                    if i % 400 == 1:
+                        gc.collect()
+                        gc.freeze()
+
+
 def retrieve(tasks):
     """the harness is done with these tasks: an outcome nobody looked at (InterestCanceled of an Interest the harness
     itself cancelled ...) must not show up as "Task exception was never retrieved" in a LATER scenario on this loop"""
@@ -2012,7 +2984,7 @@ def part_receive(ctx, only=None):
                     oracle_receive(ctx, f, loop, origin, typ, w, a, rng.randint(0, 4), rng.randint(0, 3))
                     # the same packet against a table brought into a random reachable state
                     if rng.random() < (0.35 if a[0] in (2, 3, 4) else 0.08):
-                        word = ''.join(rng.choice('WWWCCTTHGXDQVPpU') for _ in range(rng.randint(1, 5)))
+                        word = ''.join(rng.choice('WWWCCTTHGXDQVPpUBB') for _ in range(rng.randint(1, 5)))
                         oracle_states(ctx, f, loop, origin, typ, w, a, word, rng.choice(['await', 'task']))
                 ctx.case(('r', f.ver, typ, w), len(w) >= 4, case if a[0] != 0 else None,
                          f'recv.v{f.ver}.{origin.split(".")[0]}.{["drop", "raise", "nack", "interest", "data"][a[0]]}')
@@ -2027,6 +2999,19 @@ def part_receive(ctx, only=None):
                     for f in fronts:
                         if w['validator'] in JD_VALIDATORS[f.ver]:
                             judged_scenario(ctx, f, loop, M, w)
+                    continue
+                if typ == 'oddname':
+                    for f in fronts:
+                        if w['validator'] in ON_VALIDATORS[f.ver]:
+                            oddname_interest_scenario(ctx, f, loop, M, w)
+                    continue
+                if typ == 'oddpend':
+                    for f in fronts:
+                        oddname_pending_scenario(ctx, f, loop, M, w)
+                    continue
+                if typ == 'relation':
+                    for f in fronts:
+                        relation_scenario(ctx, f, loop, M, w)
                     continue
                 origin = tbl[2] if len(tbl) > 2 and tbl[2] in BUILT_NACKS else 'replay'
                 if tbl and tbl[0]:
@@ -2043,6 +3028,10 @@ def part_receive(ctx, only=None):
         nack_handler_family(ctx, fronts, loop)
         # awaited Data edited at the TLV level against validators that judge
         judged_family(ctx, fronts, loop, M)
+        # names with odd components: honest Interests against handlers, Data / Nacks against waiting Interests
+        oddname_family(ctx, fronts, loop, M)
+        # the packet's name above / at / below / beside the names in both tables; the empty name
+        relation_family(ctx, fronts, loop, M)
         # ordinary packets against every small state of the pending-Interest table (and sampled larger ones)
         for wi, word in enumerate(state_words(ctx)):
             pk = table_packets(ctx, wi)
@@ -2115,6 +3104,12 @@ def replay(ctx, data):
         part_receive(ctx, only=[('nackfam', case['nackfam'])])
     elif 'judged' in case:
         part_receive(ctx, only=[('judged', case['judged'])])
+    elif 'oddname' in case:
+        part_receive(ctx, only=[('oddname', case['oddname'])])
+    elif 'oddpend' in case:
+        part_receive(ctx, only=[('oddpend', case['oddpend'])])
+    elif 'relation' in case:
+        part_receive(ctx, only=[('relation', case['relation'])])
     elif 'wire' in case:
         part_receive(ctx, only=[(case['typ'], case['wire'], case.get('table'), case.get('mode', 'task'), case.get('origin'))])
     else:
